@@ -71,6 +71,14 @@ def sample (lower upper : α) (g : Rng) : α × Rng :=
 
 end UniformF
 
+/-- `let mut u = draw(); while u == 0. { u = draw(); }`: the first non-zero draw and the state after it;
+`none` = `fuel` draws were all zero. -/
+def redrawNonzero (draw : Rng → α × Rng) : Nat → Rng → Option (α × Rng)
+  | 0, _ => none
+  | fuel + 1, g =>
+    let r := draw g
+    if r.1 == 0 then redrawNonzero draw fuel r.2 else some r
+
 /-! ## Normal: Ziggurat with 128 layers -/
 namespace Normal
 
@@ -110,13 +118,18 @@ def iter (mu sigma : α) (u : UInt64) (g : Rng) : (α × Rng) ⊕ Rng :=
     if r.2.1 < Transc.exp (-halfC * r.1 * r.1) then .inl (out mu sigma s r.1, r.2.2)
     else .inr r.2.2
 
+/-- One pass through the `loop` body on the raw word `u` (state after drawing it: `g`): return the accepted value, or
+continue with `rest` from the state the rejected iteration leaves.  (`u`, `g` are parameters so that lemmas about one pass
+can be proved for a variable word: the kernel must never reduce the generator on a symbolic state.) -/
+def next (rest : Rng → Option (α × Rng)) (mu sigma : α) (u : UInt64) (g : Rng) : Option (α × Rng) :=
+  match iter mu sigma u g with
+  | .inl r => some r
+  | .inr g' => rest g'
+
 /-- `Normal::sample`: the `loop` with `fuel` iterations. -/
 def sample : Nat → α → α → Rng → Option (α × Rng)
   | 0, _, _, _ => none
-  | fuel + 1, mu, sigma, g =>
-    match iter mu sigma (g.u64).1 (g.u64).2 with
-    | .inl r => some r
-    | .inr g' => sample fuel mu sigma g'
+  | fuel + 1, mu, sigma, g => next (sample fuel mu sigma) mu sigma (g.u64).1 (g.u64).2
 
 end Normal
 
@@ -126,12 +139,12 @@ namespace Gamma
 /-- `Gamma::new` panics iff `alpha <= 0 || beta <= 0`. -/
 def valid (alpha beta : α) : Bool := !(decide (alpha ≤ 0) || decide (beta ≤ 0))
 
-/-- `(alpha, boost)` of the sampler and the state after the optional uniform draw. -/
-def prepare (alpha : α) (g : Rng) : α × α × Rng :=
+/-- `(alpha, boost)` of the sampler and the state after the optional uniform draw.  Repair F54: below shape 1 the boosting
+uniform is redrawn while it is exactly 0 (`none` = `fuel` zero draws in a row). -/
+def prepare (fuel : Nat) (alpha : α) (g : Rng) : Option (α × α × Rng) :=
   if alpha < 1 then
-    let (u, g) := UniformF.sample (0 : α) 1 g
-    (alpha + 1, Transc.pow u (1 / alpha), g)
-  else (alpha, 1, g)
+    (redrawNonzero (UniformF.sample (0 : α) 1) fuel g).map fun r => (alpha + 1, Transc.pow r.1 (1 / alpha), r.2)
+  else some (alpha, 1, g)
 
 /-- `v = (1 + x / sqrt(9 d))³` -/
 def vOf (d x : α) : α := powi (1 + x / Transc.sqrt (((9 : Nat) : α) * d)) 3
@@ -164,9 +177,9 @@ def loop (zf : Nat) (boost d beta : α) : Nat → Rng → Option (α × Rng)
 
 /-- `Gamma::sample`. -/
 def sample (fuel : Nat) (alpha beta : α) (g : Rng) : Option (α × Rng) :=
-  let (a, boost, g) := prepare alpha g
-  let d : α := a - 1 / ((3 : Nat) : α)
-  loop fuel boost d beta fuel g
+  match prepare fuel alpha g with
+  | none => none
+  | some r => loop fuel r.2.1 (r.1 - 1 / ((3 : Nat) : α)) beta fuel r.2.2
 
 end Gamma
 
@@ -453,14 +466,6 @@ def sample (fuel ifuel : Nat) (n : Nat) (p : α) (g : Rng) : Option (α × Rng) 
 end Binomial
 
 /-! ## Inverse-CDF samplers (repair F53: a uniform draw of exactly 0 is redrawn) -/
-
-/-- `let mut u = draw(); while u == 0. { u = draw(); }`: the first non-zero draw and the state after it;
-`none` = `fuel` draws were all zero. -/
-def redrawNonzero (draw : Rng → α × Rng) : Nat → Rng → Option (α × Rng)
-  | 0, _ => none
-  | fuel + 1, g =>
-    let r := draw g
-    if r.1 == 0 then redrawNonzero draw fuel r.2 else some r
 
 namespace Exponential
 def valid (lambda : α) : Bool := !decide (lambda ≤ 0)
